@@ -160,3 +160,53 @@ class DTree:
                 v, _ = self.decide(name, sub, atom)
                 return v
         raise Stuck('cannot fold ' + show(t)[:80])
+
+
+LESS, EQ, GT = 255, 0, 1
+
+
+def ordering_atom(dt, facts, env, classify, used=None):
+    """atom hook for folding an `Ordering`-valued function over symbolic outcomes: `classify(call term)` names the
+    comparison a call performs ((key, reversed?) or None), env[key] is its outcome; then_with / then / match on the outcome /
+    Ordering literals are followed"""
+    from symex import strip as _strip, project
+
+    def atom(t, ev):
+        if t[0] == 'call':
+            c = classify(t)
+            if c is not None:
+                key, rev = c
+                if used is not None:
+                    used.add(key)
+                o = env[key]
+                if rev:
+                    o = {LESS: GT, GT: LESS, EQ: EQ}[o]
+                return (o,)
+            if t[1].endswith('Ordering::then_with') and len(t[2]) == 2:
+                o = ev(t[2][0])
+                if o != EQ:
+                    return (o,)
+                clo = _strip(t[2][1])
+                if clo[0] != 'closure' or clo[1] not in facts.bodies:
+                    raise Stuck('then_with with a non-local closure')
+                v, _ = dt.decide(clo[1], {1: clo}, atom)
+                return (v,)
+            if t[1].endswith('Ordering::then') and len(t[2]) == 2:
+                o = ev(t[2][0])
+                return (o if o != EQ else ev(t[2][1]),)
+            if t[1].endswith('Ordering::reverse') and len(t[2]) == 1:
+                return ({LESS: GT, GT: LESS, EQ: EQ}[ev(t[2][0])],)
+        if t[0] == 'adt' and t[1].endswith('cmp::Ordering'):
+            return ({'Less': LESS, 'Equal': EQ, 'Greater': GT}[t[2]],)
+        if t[0] == 'discr':
+            v = ev(t[1])
+            if v in (LESS, EQ, GT):
+                return (v,)
+        if t[0] == 'field' and isinstance(t[2], str) and t[2].startswith('^') and t[1][0] == 'closure':
+            r = project(t[1], t[2])
+            if r[0] != 'field':
+                return (ev(r),)
+        if t[0] == 'closure':
+            return (t,)
+        return None
+    return atom
